@@ -31,7 +31,7 @@ pub fn exec(op: &str, args: &[&str]) -> String {
         "rprove" => range::op_rprove(args),
         "rmprove" => "emit:".to_string(),
         "rseq" => range::op_rseq(args),
-        "vseq" => args.iter().map(|tok| match tok.split_once(':') { Some((i, h)) => sigma::op_verify(&[i, h]).chars().next().map(|c| if c == 'b' { '?' } else { c }).unwrap_or('?'), None => '?' }).collect::<String>(),
+        "vseq" => vseq(args),
         "decode" => enc::op_decode(args),
         "serde" => enc::op_serde(args),
         "extract" => enc::op_extract(args),
@@ -91,4 +91,36 @@ fn main() {
             std::process::exit(2);
         }
     }
+}
+
+/// verifications in order on one thread; then the same sequence on three threads at once: every run gives the
+/// same verdict string (no state shared between verifications, in time or across threads)
+fn vseq(args: &[&str]) -> String {
+    fn run(toks: &[String]) -> String {
+        toks.iter().map(|tok| match tok.split_once(':') {
+            Some((i, h)) => sigma::op_verify(&[i, h]).chars().next().map(|c| if c == 'b' { '?' } else { c }).unwrap_or('?'),
+            None => '?',
+        }).collect()
+    }
+    let toks: Vec<String> = args.iter().map(|x| x.to_string()).collect();
+    let single = run(&toks);
+    let handles: Vec<_> = (0..3).map(|k| {
+        let mut t = toks.clone();
+        // each thread starts at a different place of the sequence so that accepted and rejected items overlap in time
+        let n = t.len().max(1);
+        t.rotate_left((k * n / 3) % n);
+        std::thread::spawn(move || (k, run(&t)))
+    }).collect();
+    for h in handles {
+        match h.join() {
+            Ok((k, r)) => {
+                let n = toks.len().max(1);
+                let mut expect: Vec<char> = single.chars().collect();
+                expect.rotate_left((k * n / 3) % n);
+                if r != expect.iter().collect::<String>() { return format!("variant-mismatch:concurrent:{}:{}", single, r) }
+            }
+            Err(_) => return "P".into(),
+        }
+    }
+    single
 }
